@@ -6,7 +6,7 @@ from hypothesis import strategies as st
 from execclient import Script, hx, by_index
 from runner import Failure, Outcome, h64
 from schema import (HAND, emit_schema, F_MULTI, F_TITLE, F_NO_TITLE_DUPES, F_NODEFAULT, F_LIST, F_COMMENTS, CB_VALID2, CB_PARSE,
-                    o_int, o_float, o_bool, o_str, o_list, o_sec, o_ptr)
+                    o_int, o_float, o_bool, o_str, o_list, o_sec, o_ptr, o_simple)
 
 SCHEMA = [
     o_int("i", 5, 0, CB_VALID2), o_float("f", "2.5", 0, CB_VALID2), o_str("s", "d", 0, CB_VALID2), o_bool("b", 0),
@@ -17,6 +17,7 @@ SCHEMA = [
     o_sec("tm", [o_int("x", 7), o_list("int", "zl", "{1}")], F_MULTI | F_TITLE),
     o_sec("tu", [o_int("x", 7)], F_MULTI | F_TITLE | F_NO_TITLE_DUPES),
     o_sec("multi", [o_int("x", 7)], F_MULTI),
+    o_simple("int", "si", 5), o_simple("float", "sf", "2.5"), o_simple("bool", "sb", 0), o_simple("str", "ss", "d"),   # CFG_SIMPLE_*
 ]
 HAND["c10"] = SCHEMA
 H = hx
@@ -25,10 +26,11 @@ H = hx
 STATES = {
     "pristine": [],
     "set-by-parse": [["parse_buf", 1, H("i = 3\nf = 0.5\ns = x\nb = on\nil = {1, 2, 3, 4, 5}\nsl = {z}\nfl = {0.25, 4}\nbl = {no, yes}\nni = 1\nel = {9}\n"
-                                         "p = pv\npl = {a, b}\ntm a { x = 1 zl = {3, 4} }\ntm b { }\ntu t { }\nmulti { }\nsingle { x = 2 }\n")]],
+                                         "si = 3\nsf = 0.5\nsb = on\nss = x\np = pv\npl = {a, b}\ntm a { x = 1 zl = {3, 4} }\ntm b { }\ntu t { }\nmulti { }\nsingle { x = 2 }\n")]],
     "set-by-api": [["setint", 1, H("i"), 0, H("3")], ["setfloat", 1, H("f"), 0, H("0.5")], ["setstr", 1, H("s"), 0, H("x")],
                    ["setint", 1, H("il"), 0, H("1")], ["setstr", 1, H("sl"), 1, H("y")], ["addlist", 1, H("fl"), "f", 1, "0.75"],
-                   ["addtsec", 1, H("tm"), H("a")], ["addtsec", 1, H("tu"), H("t")], ["setint", 1, H("el"), 0, H("4")]],
+                   ["addtsec", 1, H("tm"), H("a")], ["addtsec", 1, H("tu"), H("t")], ["setint", 1, H("el"), 0, H("4")],
+                   ["setint", 1, H("si"), 0, H("3")], ["setstr", 1, H("ss"), 0, H("x")]],
     "emptied": [["parse_buf", 1, H("il = {}\nsl = {}\nfl = {}\nbl = {}\ntm a { zl = {} }\n")]],
     "annotated-pristine": [["setcomment", 1, H(n), H("annotation of " + n)] for n in ("i", "f", "s", "b", "il", "sl", "fl", "bl", "ni", "el")] +
                           [["addtsec", 1, H("tm"), H("a")]],
@@ -42,7 +44,8 @@ BAD = {"int": "bad!", "float": "1.5x", "bool": "maybe"}
 RANGE = {"int": "99999999999999999999999", "float": "1e999"}
 GOOD = {"int": ["1", "2", "3", "4"], "float": ["0.5", "1", "2.5", "4"], "bool": ["on", "no", "yes", "off"], "str": ["g1", "g2", "g3", "g4"]}
 TYPED = [("i", "int", False), ("f", "float", False), ("b", "bool", False), ("il", "int", True), ("fl", "float", True), ("bl", "bool", True),
-         ("ni", "int", False), ("el", "int", True), ("tm=a|zl", "int", True), ("single|x", "int", False)]
+         ("ni", "int", False), ("el", "int", True), ("tm=a|zl", "int", True), ("single|x", "int", False),
+         ("si", "int", False), ("sf", "float", False), ("sb", "bool", False)]
 
 
 def refusing_calls():
@@ -80,16 +83,17 @@ def refusing_calls():
             C.append(("setstr %s[%d] vetoed" % (path, idx), [["setstr", 1, H(path), idx, H("veto")]], path))
     # wrong type
     for cmd, path in (("setint", "s"), ("setint", "f"), ("setint", "sl"), ("setstr", "i"), ("setstr", "il"), ("setfloat", "b"), ("setfloat", "i"),
-                      ("setbool", "f"), ("setbool", "il"), ("setint", "tm"), ("setstr", "single"), ("setint", "p")):
+                      ("setbool", "f"), ("setbool", "il"), ("setint", "tm"), ("setstr", "single"), ("setint", "p"),
+                      ("setstr", "si"), ("setint", "ss"), ("setfloat", "sb"), ("setbool", "sf")):
         C.append(("%s on %s (wrong type)" % (cmd, path), [[cmd, 1, H(path), 0, H("1")]], path))
     for cmd, path in (("osetint", "s"), ("osetstr", "il"), ("osetfloat", "b"), ("osetbool", "i")):
         C.append(("%s on %s (wrong type)" % (cmd, path), [["getopt", 1, H(path), 9], [cmd, 9, 0, H("1")]], path))
     for cmd in ("setlist", "addlist"):
-        for path in ("i", "s", "f", "b", "tm", "nosuch"):
+        for path in ("i", "s", "f", "b", "tm", "nosuch", "si", "ss"):
             C.append(("%s on %s (not a list)" % (cmd, path), [[cmd, 1, H(path), "i", 1, "1"]], path))
     # illegal index on a scalar
     for cmd, path, v in (("setint", "i", "9"), ("setstr", "s", "v"), ("setfloat", "f", "9"), ("setbool", "b", "1"), ("setint", "ni", "1"),
-                         ("setint", "single|x", "1")):
+                         ("setint", "single|x", "1"), ("setint", "si", "1"), ("setstr", "ss", "v")):
         for idx in (1, 2, 100):
             C.append(("%s %s[%d] (index on scalar)" % (cmd, path, idx), [[cmd, 1, H(path), idx, H(v)]], path))
     # unknown names
